@@ -434,15 +434,31 @@ func runC04Concurrent(pl *plan.Plan, out *plan.Outcome) {
 		call, ret int64
 	}
 	var tevs []tmplEv
+	// gotTmpl[k]: when the consumer was handed the k-th template message (one task sends them, one
+	// after the other, so the k-th delivered is the k-th sent). A template the consumer has been
+	// handed is in force: the application behind the collector reads what follows with it.
+	var gotTmpl []int64
 	env.Go("consumer", func() {
 		for {
 			var ok bool
-			Block("consume", func() { _, ok = <-cp.GetMsgChan() })
+			var msg *entities.Message
+			Block("consume", func() { msg, ok = <-cp.GetMsgChan() })
 			if !ok {
 				return
 			}
+			if msg != nil && msg.GetSet() != nil && msg.GetSet().GetSetType() == entities.Template {
+				gotTmpl = append(gotTmpl, next())
+			}
 		}
 	})
+	// inForceBy: the stamp by which template event i had taken effect (0: not yet known to have)
+	inForceBy := func(i int) int64 {
+		b := tevs[i].ret
+		if i < len(gotTmpl) && (b == 0 || gotTmpl[i] < b) {
+			b = gotTmpl[i]
+		}
+		return b
+	}
 	done := make(chan struct{}, 2)
 	hdr := ipfixref.Header{}
 	mixes := 0
@@ -484,8 +500,8 @@ func runC04Concurrent(pl *plan.Plan, out *plan.Outcome) {
 				// other task has returned, there is a valid template for this (domain, id) at every
 				// instant (that task only ever re-sends valid ones, of the same widths): the data set
 				// has a template and decodes under it, whichever version.
-				for _, ev := range tevs {
-					if ev.ret != 0 && ev.ret < call {
+				for ei := range tevs {
+					if b := inForceBy(ei); b != 0 && b < call {
 						env.Violate("rejected-decodable", "concurrent", "op %d: a data set was refused (%v) although a valid template for its (domain, id) had been accepted before the call began and templates were only ever replaced by valid ones since", i, derr)
 						break
 					}
@@ -496,11 +512,12 @@ func runC04Concurrent(pl *plan.Plan, out *plan.Outcome) {
 			// versions that were in force at some point during [call, ret]
 			acc := map[int]bool{}
 			last := -1
-			for _, ev := range tevs {
-				if ev.ret != 0 && ev.ret < call {
+			for ei, ev := range tevs {
+				b := inForceBy(ei)
+				if b != 0 && b < call {
 					last = ev.v
 				}
-				if ev.call <= ret && (ev.ret == 0 || ev.ret >= call) {
+				if ev.call <= ret && (b == 0 || b >= call) {
 					acc[ev.v] = true
 					mixes++
 				}
